@@ -43,24 +43,3 @@ func VerifC05Step() {
 		}
 	}
 }
-
-// VerifC05Race: two copies of one request racing each other are honoured at most once.
-func VerifC05Race() {
-	s := New()
-	now := verifapi.Time("now")
-	verifapi.SetNow(now)
-	id := verifapi.NodeID(0)
-	n := verifapi.Int64("n")
-	res := make(chan error, 2)
-	for i := 0; i < 2; i++ {
-		go func() { res <- s.CheckAndSaveNonce(id, n) }()
-	}
-	oks := 0
-	for i := 0; i < 2; i++ {
-		if err := <-res; err == nil {
-			oks++
-		}
-	}
-	verifapi.Reach("c05.race")
-	verifapi.Assert(oks <= 1, "c05.race-at-most-one-acceptance")
-}
